@@ -297,3 +297,7 @@ def _mentions_as_element(t, key):
 def hashmap_value_contains_key_container(subject):
     return any_node(subject["t"], lambda x: x["k"] == "map" and x["s"] in ("HashMap", "FxHashMap", "IndexMap")
                     and _mentions_as_element(x["ts"][1], x["ts"][0]))
+
+@predicate
+def contains_repr_enum_unit_beside_payload(subject):
+    return any_node(subject["t"], _enum_unit_and_payload)
